@@ -1,17 +1,30 @@
-(* Driver for the extracted C06 model. One program per input line, functions separated by "|",
-   function 0 is main. Statement tokens (blank separated):
-     o<k> object   d<k> defer   m<k> mark   { ... } block   ?T|?F|?<j> { ... } { ... } if/else
-     L<n> { ... } loop   c<f> call   r return   b break   k continue
+(* Driver for the extracted C06 model. One program per input line:
+     N<n0> <function 0 = main> | <function 1> | ...
+   (the N<n0> token - main's depth value - is optional, default 0). Statement tokens (blank separated):
+     o<T><x>:<k> object of struct type T in {R,Q,W} in variable v<x>, constant k  (o<k> = oR<k>:<k>)
+     d<k> defer   m<k> mark   { ... } block   ?T|?F|?D|?<j> { ... } { ... } if/else  (?D: n > 0)
+     L<n> { ... } loop   c<f> call f<f>(n - 1)   r return   b break   k continue
    Output, one line per program, tab separated:
-     mech_ok d t s <mech events> spec_ok <spec events> s11 s43 s44 pinned_ok d t s <pinned-machine events>
+     mech_ok d t s <mech events> spec_ok <spec events> s11 s43 s44 pinned_ok d t s <pinned-machine events> wf
    (mech = machine of the current code; pinned = machine of the code before the fix commits, diagnosis
-   only; s11/s43/s44 = the program contains the shape the former defect needed)
+   only; s11/s43/s44 = the program contains the shape the former defect needed; wf = wf_prog, the class
+   covered by theorem cleanup_mech_refines_spec_partial)
    events are joined by ";" ; "FUEL" when the fuel (4000) is exhausted. *)
 open C06_model
 let rec nat_of_int n = if n <= 0 then O else S (nat_of_int (n - 1))
 let rec int_of_nat = function O -> 0 | S n -> 1 + int_of_nat n
 let num s = int_of_string (String.sub s 1 (String.length s - 1))
 exception Bad of string
+let parse_obj t =
+  (* o<k>  or  o<T><x>:<k> *)
+  match t.[1] with
+  | 'R' | 'Q' | 'W' ->
+      let ty = (match t.[1] with 'R' -> TR | 'Q' -> TQ | _ -> TW) in
+      let i = String.index t ':' in
+      let x = int_of_string (String.sub t 2 (i - 2)) in
+      let k = int_of_string (String.sub t (i + 1) (String.length t - i - 1)) in
+      SObj (nat_of_int x, ty, nat_of_int k)
+  | _ -> let k = num t in SObj (nat_of_int k, TR, nat_of_int k)
 let rec parse_block toks =            (* expects "{" ... "}" ; returns block, rest *)
   match toks with
   | "{" :: r -> parse_items r
@@ -27,13 +40,13 @@ and parse_stmt toks =
   | [] -> raise (Bad "stmt")
   | t :: r ->
     (match t.[0] with
-     | 'o' -> (SObj (nat_of_int (num t)), r)
+     | 'o' -> (parse_obj t, r)
      | 'd' -> (SDefer (nat_of_int (num t)), r)
      | 'm' -> (SMark (nat_of_int (num t)), r)
      | 'c' -> (SCall (nat_of_int (num t)), r)
      | 'r' -> (SRet, r) | 'b' -> (SBrk, r) | 'k' -> (SCont, r)
      | '{' -> let (b, r') = parse_block toks in (SBlock b, r')
-     | '?' -> let c = (match t with "?T" -> CTrue | "?F" -> CFalse | _ -> CIter (nat_of_int (num t))) in
+     | '?' -> let c = (match t with "?T" -> CTrue | "?F" -> CFalse | "?D" -> CDepth | _ -> CIter (nat_of_int (num t))) in
               let (b1, r1) = parse_block r in let (b2, r2) = parse_block r1 in (SIf (c, b1, b2), r2)
      | 'L' -> let (b, r') = parse_block r in (SLoop (nat_of_int (num t), b), r')
      | _ -> raise (Bad ("token " ^ t)))
@@ -41,9 +54,10 @@ let rec parse_top toks =              (* items up to end of list *)
   match toks with
   | [] -> BNil
   | _ -> let (s, r) = parse_stmt toks in BCons (s, parse_top r)
+let tyname = function TR -> "" | TQ -> "q" | TW -> "w"
 let ev = function
-  | ECtor k -> Printf.sprintf "ctor %d" (int_of_nat k)
-  | EDtor k -> Printf.sprintf "dtor %d" (int_of_nat k)
+  | ECtor (t, k) -> Printf.sprintf "%sctor %d" (tyname t) (int_of_nat k)
+  | EDtor (t, k) -> Printf.sprintf "%sdtor %d" (tyname t) (int_of_nat k)
   | EReg k -> Printf.sprintf "reg %d" (int_of_nat k)
   | EDefer k -> Printf.sprintf "defer %d" (int_of_nat k)
   | EMark k -> Printf.sprintf "mark %d" (int_of_nat k)
@@ -56,19 +70,26 @@ let () =
   let fuel = nat_of_int 4000 in
   (try while true do
     let l = input_line stdin in
+    let toks0 = List.filter (fun s -> s <> "") (String.split_on_char ' ' l) in
+    let (n0, l) = (match toks0 with
+                   | t :: _ when String.length t > 1 && t.[0] = 'N' ->
+                       let i = String.index l 'N' in
+                       let j = (try String.index_from l i ' ' with Not_found -> String.length l) in
+                       (num t, String.sub l j (String.length l - j))
+                   | _ -> (0, l)) in
     let funcs = String.split_on_char '|' l in
     let p = List.map (fun f -> parse_top (List.filter (fun s -> s <> "") (String.split_on_char ' ' f))) funcs in
-    let m = (match mrun fuel p with
+    let n0 = nat_of_int n0 in
+    let st_s st = Printf.sprintf "%d\t%d\t%d\t%s" (List.length st.dfs) (List.length st.dts) (List.length st.vars) (evs st.tr) in
+    let m = (match mrun fuel p n0 with
              | None -> "FUEL\t0\t0\t0\t"
-             | Some (ok, st) -> Printf.sprintf "%s\t%d\t%d\t%d\t%s" (b2s ok) (List.length st.dfs) (List.length st.dts)
-                                  (int_of_nat st.scd) (evs st.tr)) in
-    let s = (match srun fuel p with
+             | Some (ok, st) -> Printf.sprintf "%s\t%s" (b2s ok) (st_s st)) in
+    let s = (match srun fuel p n0 with
              | None -> "FUEL\t"
              | Some (ok, t) -> Printf.sprintf "%s\t%s" (b2s ok) (evs t)) in
     let ((a, b), c) = shapes p in
-    let pn = (match prun fuel p with
+    let pn = (match prun fuel p n0 with
              | None -> "FUEL\t0\t0\t0\t"
-             | Some (ok, st) -> Printf.sprintf "%s\t%d\t%d\t%d\t%s" (b2s ok) (List.length st.dfs) (List.length st.dts)
-                                  (int_of_nat st.scd) (evs st.tr)) in
-    Printf.printf "%s\t%s\t%s\t%s\t%s\t%s\n" m s (b2s a) (b2s b) (b2s c) pn
+             | Some (ok, st) -> Printf.sprintf "%s\t%s" (b2s ok) (st_s st)) in
+    Printf.printf "%s\t%s\t%s\t%s\t%s\t%s\t%s\n" m s (b2s a) (b2s b) (b2s c) pn (b2s (wf_prog p))
   done with End_of_file -> ())
